@@ -663,6 +663,7 @@ func collideSpecials(c *Ctx, r *Rng) error {
 		}
 		fP, _ := mk("p", sp.P)
 		fQ, _ := mk("q", sp.Q)
+		onlyAbstracted := false
 		rp := map[string]interface{}{"special": sp.Name, "source_P": trunc(sp.P, 4000), "source_Q": trunc(sp.Q, 4000), "extra_files": sp.Files, "outputs_P": outP, "outputs_Q": outQ, "inputs(a,b,s,xs)": execInputs}
 		for _, pol := range []struct {
 			n string
@@ -673,20 +674,31 @@ func collideSpecials(c *Ctx, r *Rng) error {
 			if e1 != nil || e2 != nil {
 				return fmt.Errorf("special %s does not load: %v %v", sp.Name, e1, e2)
 			}
-			var a, b string
+			var a, b, irA, irB string
 			fnSuffix := ".Special"
 			if sp.Changed != "" {
 				fnSuffix = "." + sp.Changed
 			}
 			for _, x := range rP {
 				if strings.HasSuffix(x.FunctionName, fnSuffix) {
-					a = x.Fingerprint
+					a, irA = x.Fingerprint, x.CanonicalIR
 				}
 			}
 			for _, x := range rQ {
 				if strings.HasSuffix(x.FunctionName, fnSuffix) {
-					b = x.Fingerprint
+					b, irB = x.Fingerprint, x.CanonicalIR
 				}
+			}
+			if pol.n == "keepall" {
+				// P and Q that differ ONLY in literals the default policy documents as abstracted are
+				// exempt under that policy (C03's wording; the same reading as for generated pairs)
+				onlyAbstracted = a != b && maskAbstractedLiterals(irA) == maskAbstractedLiterals(irB)
+				if onlyAbstracted {
+					c.Count("special_differs_only_in_abstracted_literals")
+				}
+			}
+			if pol.n == "default" && onlyAbstracted {
+				continue
 			}
 			if a != "" && a == b {
 				c.Violate("C03", "C03/collision-"+pol.n+":"+sp.Family, fmt.Sprintf("%s: P and Q produce different outputs but share the fingerprint %s", sp.Name, trunc(a, 16)), rp)
@@ -702,7 +714,7 @@ func collideSpecials(c *Ctx, r *Rng) error {
 			changed = sp.Changed
 		}
 		for _, fd := range dout.Functions {
-			if fd.Function == changed && fd.Status == "preserved" {
+			if fd.Function == changed && fd.Status == "preserved" && !onlyAbstracted {
 				how := "structural-match"
 				if fd.FingerprintMatch {
 					how = "fingerprint-match"
